@@ -45,6 +45,7 @@ W = {
     "tie": 0.30,          # tie over a segment / measure boundary (chains over several barlines)
     "divchange": 0.30,    # per measure: divisions change (at the barline or mid-measure)
     "midchange": 0.5,     # ... of which mid-measure
+    "midchange3": 0.4,    # ... of the mid-measure changes: two changes in one measure (A -> B -> A or A -> B -> C)
     "pickup": 0.3,
     "irregular": 0.15,
     "voices": 0.85,       # more than one voice
@@ -321,6 +322,22 @@ def gen_part(rng, ids, pid, small=False):
             if q2 == q1:
                 q2 *= 2
             segs = [(L1, q1), (L - L1, q2)]
+            if L - L1 >= 1 and rng.random() < W["midchange3"]:
+                # a second change inside the same measure: back to the value the measure started with (A -> B -> A,
+                # the change that a comparison with the measure's first value only does not see) or on to a third one
+                L2 = Fraction(rng.randint(1, int((L - L1) * 2) - 1), 2)
+                L3 = L - L1 - L2
+                if rng.random() < 0.7:
+                    while (L3 * q1).denominator != 1:      # q1 must fit the last piece as well
+                        q1 *= 2
+                    q3 = q1
+                else:
+                    q3 = rng.choice([x for x in (1, 2, 3, 4, 6, 8, 12, 16, 24) if x != q1])
+                    while (L3 * q3).denominator != 1:
+                        q3 *= 2
+                while (L2 * q2).denominator != 1 or q2 == q1 or q2 == q3:
+                    q2 *= 2
+                segs = [(L1, q1), (L2, q2), (L3, q3)]
         else:
             segs = [(L, newq)]
         for (Ls, qs) in segs:
@@ -2624,6 +2641,13 @@ def features_of(spec):
             ms = {m[0] for m in ps["measures"]}
             if any(t not in ms for t, q in ps["qchanges"]):
                 f.add("mid-measure divchange")
+            for m in ps["measures"]:
+                inside = [q for t, q in ps["qchanges"] if m[0] < t < m[1]]
+                if len(inside) >= 2:
+                    f.add("two divchanges in one measure")
+                    qs_at = [q for t, q in [(0, ps["q0"])] + [tuple(x) for x in ps["qchanges"]] if t <= m[0]]
+                    if qs_at and inside[-1] == qs_at[-1] and len({o.get("voice") for o in ps["objs"] if "voice" in o}) > 1:
+                        f.add("divisions A -> B -> A in one measure, several voices")
         if ps["poly"]:
             f.add("poly")
         if len({o.get("voice") for o in ps["objs"] if "voice" in o}) > 1:
